@@ -100,6 +100,30 @@ fn case1<T: Elem>(case: u64, spline: bool, args: &Args, ev: &mut Ev, log: &mut E
                 }
             }
         });
+        // (a') a large batch mixing in-range and outside queries must be answered as a whole
+        if case % 6 == 0 {
+            let sizes = [1023usize, 1024, 1025, 2000, 4097, 5000];
+            let size = sizes[(case / 6) as usize % sizes.len()];
+            let pool: Vec<T> = inside.iter().chain(outside.iter()).copied().collect();
+            let vals: Vec<T> = (0..size).map(|i| pool[(i * 7 + 3) % pool.len()]).collect();
+            for (kind, shape) in [(QKind::S1, vec![size]), (QKind::S2, vec![size / 5, 5]), (QKind::Dyn, vec![size])] {
+                let n: usize = shape.iter().product();
+                let qa = Query::from_vec(vals[..n].to_vec(), &shape, kind);
+                match on.many(&qa) {
+                    Outcome::Ok(_) => ev.add("large_batches_answered", 1),
+                    Outcome::Untypeable => {}
+                    o => {
+                        ev.violation(
+                            "C06:finite-query-rejected",
+                            &format!("interp_array({}) with {n} finite queries -> {}", qa.name(), o.detail()),
+                            case,
+                            spec1_json(&spec_on),
+                        );
+                        return;
+                    }
+                }
+            }
+        }
         // (b) outside: answered, and logged for the exact end-piece comparison
         match query_all1(&mut rng, on, &spec_on, &outside) {
             Err(f) => ev.violation(
